@@ -46,12 +46,44 @@ def worker_finish(tier, rec, st):
     common.finish_monitors(rec, st)
 
 
+def no_parameters_case(rng, rec, fam):
+    """a dataclass without constructor parameters (no members, or init=False members only): every key is a stranger."""
+    from mashumaro.codecs.basic import BasicDecoder
+    from mashumaro.exceptions import ExtraKeysError
+    forbid = rng.random() < 0.7
+    mixin = rng.random() < 0.6
+    body = rng.choice(["    pass\n", "    ni: int = field(default=1, init=False)\n", "    cv: ClassVar[int] = 3\n"])
+    src = f"@dataclass\nclass E{'(DataClassDictMixin)' if mixin else ''}:\n{body}    class Config(BaseConfig):\n        forbid_extra_keys = {forbid}\n"
+    fam.exec_src(src)
+    E = fam.module.E
+    dec = E.from_dict if mixin else BasicDecoder(E).decode
+    for d in ({}, {"stranger": 1}, {"ni": 5}, {"a": 1, 7: 2}):
+        rec.evaluation()
+        exp = ("extra", set(d)) if (forbid and d) else ("ok",)
+        try:
+            dec(dict(d))
+            got = ("ok",)
+        except ExtraKeysError as e:
+            got = ("extra", set(e.extra_keys))
+        except Exception as e:
+            got = ("exc", f"{type(e).__name__}: {e}"[:120])
+        if got == exp:
+            rec.count("agree_" + exp[0])
+            rec.count("no_parameters_agree")
+            rec.nontrivial(("no-parameters", forbid, mixin, body, repr(sorted(map(repr, d)))))
+        else:
+            rec.violation(f"keymodel-mismatch:no-parameters:{exp[0]}->{got[0]}", {"source": src, "input": repr(d), "observed": common.short(got), "expected": common.short(exp)},
+                          {"forbid": forbid, "no_parameters": True})
+
+
 def run_case(seed, tier, rec, st):
     from mashumaro.codecs.basic import BasicDecoder
     from mashumaro.exceptions import ExtraKeysError, MissingField
     rng = random.Random(seed)
     fam = Family("c09")
     try:
+        if rng.random() < 0.03:
+            return no_parameters_case(rng, rec, fam)
         nf = rng.randint(2, 3)
         names = ["x", "y", "w"][:nf]
         allow = rng.random() < 0.5
@@ -134,9 +166,13 @@ def run_case(seed, tier, rec, st):
             if rng.random() < 0.5:
                 # PLAIN Config classes (not derived from BaseConfig) inheriting from each other: the derived one decides
                 plain_cfg_chain = True
-                base_cfg = ["    class Config:", f"        allow_deserialization_not_by_alias = {not allow}", f"        forbid_extra_keys = {not forbid}",
+                inherit_forbid = rng.random() < 0.5
+                base_cfg = ["    class Config:", f"        allow_deserialization_not_by_alias = {not allow}", f"        forbid_extra_keys = {forbid if inherit_forbid else (not forbid)}",
                             f"        aliases = {dict((f['name'], 'STALEC_' + f['name']) for f in fields)!r}"]
                 config = ["    class Config(Base.Config):"] + config[1:]
+                if inherit_forbid:
+                    # an option the derived Config does not mention is the one it INHERITS
+                    config = [c for c in config if "forbid_extra_keys" not in c]
                 if not cfg_aliases:
                     config.append("        aliases = {}")
             if rng.random() < 0.4:
